@@ -392,6 +392,19 @@ fn runtimes(threads: usize, rounds: usize, seed: u64) -> Value {
                                     }
                                 }
                             }
+                            // string building through the shared runtime: every thread joins its own 20 words
+                            {
+                                let words: Vec<String> = (0..20).map(|w| format!("s{}r{}x{}", t, round, w)).collect();
+                                let text = format!("join('-', [{}])", words.iter().map(|w| format!("'{}'", w)).collect::<Vec<_>>().join(", "));
+                                let want = format!("ok:\"{}\"", words.join("-"));
+                                for _ in 0..3 {
+                                    let g = fp(&rt.compile(&text).and_then(|e| e.search(doc)));
+                                    done += 1;
+                                    if g != want && mism.len() < 3 {
+                                        mism.push(json!({"phase": "concurrent", "round": round, "thread": t, "expression": "join('-', [<20 words of this thread>])", "known_by_construction": want, "shared_runtime": g}));
+                                    }
+                                }
+                            }
                             for k in 0..PROBES.len() {
                                 let i = (k + 5 * t + rot) % PROBES.len();
                                 let g = fp(&rt.compile(all_probes[i]).and_then(|e| e.search(())));
